@@ -99,6 +99,77 @@ func (s *refSpec) units(tier string) []core.Unit {
 	return us
 }
 
+// slot2Units (thorough): for every typical shape b of the ecosystem, every TWO-slot substitution
+// of b is compared (both argument orders) with b and with every one-slot substitution of b.
+// Interactions between two fields (packed keys, prefix-skipping fast paths) live here; the
+// all-pairs universe cannot hold the ~14 000 two-slot strings per shape.
+func (s *refSpec) slot2Units() []core.Unit {
+	bases := append([]string{}, gen.RangeBounds[s.Eco]...)
+	if cb, ok := gen.CaseBounds[s.Eco]; ok {
+		bases = append(bases, cb)
+	}
+	var us []core.Unit
+	for _, b := range bases {
+		b := b
+		us = append(us, core.Unit{Name: fmt.Sprintf("%s/%s/slot2/%s", s.Prop, s.Eco, b), Weight: 5, Run: func(r *core.Result) {
+			e := eco.ByName(s.Eco)
+			type pv struct {
+				s string
+				v eco.Ver
+			}
+			parse := func(cands []string) []pv {
+				var out []pv
+				for _, c := range gen.Uniq(cands) {
+					if !s.Valid(c) {
+						continue
+					}
+					if v, err := eco.SafeParse(e, c); err == nil {
+						out = append(out, pv{c, v})
+					}
+				}
+				return out
+			}
+			one := gen.SlotMutations(b)
+			l1 := parse(append([]string{b}, one...))
+			var two []string
+			for _, m := range one {
+				two = append(two, gen.SlotMutations(m)...)
+			}
+			l2 := parse(two)
+			r.Add("states", int64(len(l2)))
+			r.AddScope(s.Eco, "slot2_strings", int64(len(l2)))
+			for _, x := range l2 {
+				for _, y := range l1 {
+					if s.PairOK != nil && !s.PairOK(x.s, y.s) {
+						continue
+					}
+					for dir := 0; dir < 2; dir++ {
+						a, c := x, y
+						if dir == 1 {
+							a, c = y, x
+						}
+						want, tag := s.Cmp(a.s, c.s)
+						got, p := eco.SafeCompare(a.v, c.v)
+						r.Add("evaluations", 1)
+						if want != 0 {
+							r.Add("nontrivial", 1)
+						}
+						if p != nil || got != want {
+							g := fmt.Sprintf("Compare=%d", got)
+							if p != nil {
+								g = p.Error()
+							}
+							r.Violate(core.Violation{Property: s.Prop, Scope: s.Eco, Kind: "order",
+								Inputs: []string{a.s, c.s}, Expected: fmt.Sprintf("reference=%d", want), Got: g, Note: tag})
+						}
+					}
+				}
+			}
+		}})
+	}
+	return us
+}
+
 func (s *refSpec) replay(v *core.Violation) (bool, string) {
 	e := eco.ByName(v.Scope)
 	a, e1 := eco.SafeParse(e, v.Inputs[0])
@@ -135,6 +206,9 @@ func registerRef(id, title string, specs []*refSpec, rule string, assumptions, t
 			var us []core.Unit
 			for _, s := range specs {
 				us = append(us, s.units(tier)...)
+				if tier == "thorough" {
+					us = append(us, s.slot2Units()...)
+				}
 			}
 			return us
 		},
@@ -146,7 +220,7 @@ func registerRef(id, title string, specs []*refSpec, rule string, assumptions, t
 			return s.replay(v)
 		},
 		Finalize:        refFinalize,
-		Rule:            rule + " All candidate sets also contain the magnitude family (2^16, 2^17, 2^31, 2^32, 2^53 neighbours, an 8-digit date) and the leading-zero family in every numeric slot, and the one-slot substitution closure of the ecosystem's typical shapes: each digit run replaced by each of 22 numeric tokens, each letter run by each of 32 words, each separator by each of 9 separators, plus appended tokens.",
+		Rule:            rule + " All candidate sets also contain the magnitude family (2^16, 2^17, 2^31, 2^32, 2^53 neighbours, an 8-digit date) and the leading-zero family in every numeric slot, and the one-slot substitution closure of the ecosystem's typical shapes: each digit run replaced by each of 22 numeric tokens, each letter run by each of 32 words, each separator by each of 9 separators, plus appended tokens. Thorough adds, per typical shape, every two-slot substitution (about 14 000 strings per shape) compared in both orders with the shape and all its one-slot substitutions.",
 		Assumptions:     assumptions,
 		Trusted:         trusted,
 		Conformance:     firstOr(conf, ""),
